@@ -189,7 +189,7 @@ func (e *renc) log(l mLog) {
 // ---------------------------------------------------------------------------------------------
 // framing walker
 
-const sizeCap = 1 << 16
+const sizeCap = 1 << 15
 
 type chunk struct{ sizeOff, lo, hi int }
 
@@ -198,7 +198,8 @@ type walker struct {
 	off     int
 	max     uint32 // largest size/count field the decoder would read along its path
 	chunks  []chunk
-	stopped bool // framing ended early (truncated or undecodable)
+	ends    []int // kind "log": offsets at which a complete log ends (after the header, after each event)
+	stopped bool  // framing ended early (truncated or undecodable)
 }
 
 func (w *walker) need(n int) bool {
@@ -280,8 +281,14 @@ func walk(kind string, b []byte) *walker {
 	switch kind {
 	case "log":
 		w.hdr()
+		if !w.stopped {
+			w.ends = append(w.ends, w.off)
+		}
 		for !w.stopped && w.off < len(b) {
 			w.ev2()
+			if !w.stopped {
+				w.ends = append(w.ends, w.off)
+			}
 		}
 	case "hdr":
 		w.hdr()
